@@ -88,10 +88,10 @@ async fn push_node(rig: &Rig, case: u64, room: u64, node: &Node) {
 // ------------------------------------------------------------------ CWrite
 #[derive(Clone, Debug)]
 struct Head { ent: u64, room: Option<u64>, date: i64, has_node: bool, too_big: bool, old: Option<(Option<u64>, u64)> }
-fn head_coq(h: &Head, ndel: usize) -> String {
+fn head_coq(h: &Head, rm: &[u64]) -> String {
     let old = h.old.map(|(r, a)| format!("{{| o_room := {}; o_author := {} |}}", gon(r), gn(a)));
     format!("{{| h_kind := KNormal; h_ent := {}; h_room := {}; h_date := {}; h_has_node := {}; h_too_big := {}; h_old := {}; h_edge_dels := {} |}}",
-        gn(h.ent), gon(h.room), gz(h.date), gb(h.has_node), gb(h.too_big), gopt(&old), gn(ndel as u64))
+        gn(h.ent), gon(h.room), gz(h.date), gb(h.has_node), gb(h.too_big), gopt(&old), glist(&rm.iter().map(|k| gn(*k)).collect::<Vec<_>>()))
 }
 
 async fn run_write(rig: &Rig, case: u64, w: &World, me: u64, h: &Head, nadd: u64, rm: &[u64]) -> Vec<i64> {
@@ -184,7 +184,7 @@ async fn run_del_node(rig: &Rig, case: u64, w: &World, me: u64, now: i64, auth_l
     let mut row = Node { id: cuid(case, 100), room_id: room.map(|r| cuid(case, r)), cdate: now - 9, mdate: now - 5, _entity: dm.short(ent), _json: name_json(dm, ent, "row"), ..Default::default() };
     row.sign(keys.sk(author)).unwrap();
     let name = if auth_like { "sys.EntityRight".to_string() } else { ent_name(ent) };
-    let mut dq = DeletionQuery { nodes: vec![NodeDelete { node: row.clone(), name, date: now }], node_log: vec![], updated_nodes: vec![], edges: vec![], edge_log: vec![] };
+    let mut dq = DeletionQuery { nodes: vec![NodeDelete { node: row.clone(), name, date: now }], node_log: vec![], updated_nodes: vec![], updated_nodes_previous: vec![], edges: vec![], edge_log: vec![] };
     let ra = local_auth(w, me);
     verif_clock::set(now);
     let local = match ra.validate_deletion(&mut dq) { Ok(_) => 0, Err(e) => verdict(&e) };
@@ -210,7 +210,7 @@ async fn run_del_ref(rig: &Rig, case: u64, w: &World, me: u64, now: i64, auth_li
     let name = if auth_like { "sys.EntityRight".to_string() } else { ent_name(ent) };
     let mut upd = row.clone();
     upd.mdate = now;
-    let mut dq = DeletionQuery { nodes: vec![], node_log: vec![], updated_nodes: vec![NodeDelete { node: upd.clone(), name: name.clone(), date: now }],
+    let mut dq = DeletionQuery { nodes: vec![], node_log: vec![], updated_nodes_previous: vec![], updated_nodes: vec![NodeDelete { node: upd.clone(), name: name.clone(), date: now }],
         edges: vec![EdgeDelete { edge: edge.clone(), src_name: name, room_id: row.room_id, date: now }], edge_log: vec![] };
     let ra = local_auth(w, me);
     verif_clock::set(now);
@@ -299,15 +299,13 @@ fn case_json(rng: &mut Rng, jm: &JModel, directed: Option<usize>) -> Case {
     let mut lits = vec![];
     for f in fs {
         let choice = match directed {
-            Some(0) => if f.name == "s" { 10 } else if f.name == "i" { 1 } else { 0 },      // i: null
+            Some(0) => if f.name == "s" { 10 } else if f.name == "i" || f.name == "j" { 1 } else { 0 },      // i: null, j: null (repaired: d170035, 8ac9d00)
             Some(1) => if f.name == "s" { 10 } else if f.name == "j" { 11 } else { 0 },     // j: "5"
             Some(_) => 0,                                                                   // everything omitted: Json default "5"
             None => {
                 let c = rng.below(10);
-                // `null` for a Json field is not generated: MutationQuery::get_mutate_query panics on it
-                // (mutation_query.rs:294, the defect recorded under C14), there is no verdict to compare
                 if c <= 2 { if !f.nullable && f.default.is_none() && rng.chance(9, 10) { 5 } else { 0 } }
-                else if c == 3 && f.ty != "TJson" && rng.chance(1, 3) && (f.nullable || rng.chance(1, 4)) { 1 } else { 5 }
+                else if c == 3 && rng.chance(1, 3) && (f.nullable || rng.chance(1, 4)) { 1 } else { 5 }
             }
         };
         match choice {
@@ -366,13 +364,13 @@ async fn main() {
     // directed: the three listed disagreement classes, then agreement on the plain shapes
     for d in 0..3 { let mut r = rng.fork(); let mut c = case_json(&mut r, &jm, Some(d)); c.kind = "directed".into(); out.push(c); }
     {
-        // K3: key 1 owns the row and has the own-rows right only; the reference it removes was written by key 2
+        // repaired by 25ca1a0 (was class 3): key 1 owns the row and has the own-rows right only; the reference it removes was written by key 2
         case += 1;
         let w = world(&rig, case, vec![(1, simple_room(&[(1, 1, true, false), (2, 1, true, true)]))]).await;
         let h = Head { ent: 1, room: Some(1), date: BASE, has_node: true, too_big: false, old: Some((Some(1), 1)) };
         let obs = run_write(&rig, case, &w, 1, &h, 1, &[2, 1]).await;
-        out.push(Case { kind: "directed".into(), coq: format!("CWrite {} {} {} {} {} {}", defs_coq(&w.defs), rig.dm.coq(), gn(1), head_coq(&h, 2), gn(1), glist(&[gn(2), gn(1)])),
-            obs, meta: json!({"what": "K3 removal of another author's reference inside a mutation"}) });
+        out.push(Case { kind: "directed".into(), coq: format!("CWrite {} {} {} {} {}", defs_coq(&w.defs), rig.dm.coq(), gn(1), head_coq(&h, &[2, 1]), gn(1)),
+            obs, meta: json!({"what": "repaired (25ca1a0): removal of another author's reference inside a mutation is refused locally"}) });
     }
     while out.n < n {
         case += 1;
@@ -384,7 +382,7 @@ async fn main() {
                 let nadd = if h.has_node { [0, 0, 1, 2][r.below(4) as usize] } else { 0 };
                 let rm: Vec<u64> = if h.old.is_some() && h.has_node { (0..[0, 0, 1, 2][r.below(4) as usize]).map(|_| if r.chance(2, 3) { me } else { 1 + r.below(4) }).collect() } else { vec![] };
                 let obs = run_write(&rig, case, &w, me, &h, nadd, &rm).await;
-                out.push(Case { kind: "write".into(), coq: format!("CWrite {} {} {} {} {} {}", defs_coq(&w.defs), rig.dm.coq(), gn(me), head_coq(&h, rm.len()), gn(nadd), glist(&rm.iter().map(|k| gn(*k)).collect::<Vec<_>>())),
+                out.push(Case { kind: "write".into(), coq: format!("CWrite {} {} {} {} {}", defs_coq(&w.defs), rig.dm.coq(), gn(me), head_coq(&h, &rm), gn(nadd)),
                     meta: json!({"local": obs[0], "peer": &obs[1..], "create": h.old.is_none(), "move": h.old.map(|o| o.0 != h.room).unwrap_or(false), "adds": nadd, "removes": rm.len()}), obs });
             }
             4 | 5 => {
